@@ -603,8 +603,13 @@ fn get_zone_offset(zone_name: &str, date: (i32, u32, u32), time: (u32, u32, u32,
   if let LocalResult::Single(utc) = Utc.ymd_opt(date.0, date.1, date.2).and_hms_nano_opt(time.0, time.1, time.2, time.3) {
     // try parse the time zone specified as text
     if let Ok(tz) = zone_name.parse::<chrono_tz::Tz>() {
-      // build date and time in parsed time zone
-      let zdt = tz.ymd(date.0, date.1, date.2).and_hms_nano(time.0, time.1, time.2, time.3);
+      // build date and time in parsed time zone; a local time that is repeated when the clocks go back
+      // takes the earlier offset, a local time that is skipped when the clocks go forward has no offset
+      let zdt = match tz.from_local_datetime(&utc.naive_utc()) {
+        LocalResult::Single(zdt) => zdt,
+        LocalResult::Ambiguous(earlier, _) => earlier,
+        LocalResult::None => return None,
+      };
       // calculate the time offset, the result is a chrono::Duration
       let offset: chrono::Duration = utc.with_timezone(&tz) - zdt;
       // return seconds
